@@ -98,6 +98,9 @@ func (t *Target) BuildRedirectURL(requestURL *url.URL) {
 		RawPath:  t.URL.EscapedPath(),
 		RawQuery: t.URL.RawQuery,
 	}
+	// the target may also name a user and a fragment (https://host/docs#install)
+	t.RedirectURL.User = t.URL.User
+	t.RedirectURL.Fragment, t.RedirectURL.RawFragment = t.URL.Fragment, t.URL.RawFragment
 	// treat case of $path not separated with a / from host
 	if strings.HasSuffix(t.RedirectURL.Host, "$path") {
 		t.RedirectURL.Host = t.RedirectURL.Host[:len(t.RedirectURL.Host)-len("$path")]
